@@ -313,6 +313,11 @@ func tryReplay(verif, prop string, o *Obligation, rf *replayFile) {
 		src = strings.ReplaceAll(src, "{{"+k+"}}", v)
 	}
 	src = strings.ReplaceAll(src, "{{OBLIGATION}}", strconv.Quote(o.Name))
+	for _, kv := range strings.Fields(fv.C.Flags["replayconst"]) {
+		if i := strings.Index(kv, "="); i > 0 {
+			src = strings.ReplaceAll(src, "{{"+kv[:i]+"}}", kv[i+1:])
+		}
+	}
 	pkgdir := "."
 	if m := rePkgDir.FindStringSubmatch(src); m != nil {
 		pkgdir = m[1]
